@@ -90,7 +90,7 @@ func r175(c *Ctx, r *R) {
 				return
 			}
 			if fl, _ := fieldOfAddrValue(st.Addr); fl != nil && fl.Name() == "ShutdownOnRemove" {
-				if k, isK := constOf(st.Val); isK && (k == nil || !boolVal(k)) && len(guardsOf(st.Block())) == 0 {
+				if k, isK := constOf(st.Val); isK && (k == nil || !boolVal(k)) && onEveryPath(st) {
 					ok = true
 				}
 			}
@@ -2193,6 +2193,60 @@ func r099(c *Ctx, r *R) {
 	}
 	if n == 0 {
 		r.Und("episode", f.Pos(), "the 'latest metric unexpired: not failed' exit of Checker.failed was not recognised")
+	}
+	// the bookkeeping is per (peer, metric name): a peer's whole record is
+	// dropped only when no name is left in it. Dropping it on the health
+	// (or the forgetting) of one name also clears the counters of the
+	// peer's other names, whose expired metrics are then alerted again on
+	// every round and never forgotten
+	nDel := 0
+	c.P.RepoFuncs(func(g *ssa.Function) {
+		if g.Pkg != f.Pkg {
+			return
+		}
+		for _, ci := range callsIn(g) {
+			if callName(ci.Common()) != "builtin.delete" {
+				continue
+			}
+			if fl, _ := fieldLoad(ci.Common().Args[0]); fl == nil || fl.Name() != "failedPeers" {
+				continue
+			}
+			nDel++
+			empty := guardedBy(ci.Block(), func(gd Guard) bool {
+				x, k, tme, ok := eqConst(gd.Cond)
+				if !ok || tme != gd.Branch {
+					return false
+				}
+				if iv, isI := constant.Int64Val(k); !isI || iv != 0 {
+					return false
+				}
+				lc, _ := originCall(x)
+				if lc == nil || callName(lc.Common()) != "builtin.len" {
+					return false
+				}
+				// len of the peer's own record: failedPeers[pid] (directly,
+				// or the local it was read into)
+				for _, l := range phiLeaves(lc.Common().Args[0]) {
+					var lk *ssa.Lookup
+					switch y := l.(type) {
+					case *ssa.Lookup:
+						lk = y
+					case *ssa.Extract:
+						lk, _ = y.Tuple.(*ssa.Lookup)
+					}
+					if lk != nil {
+						if fl, _ := fieldLoad(lk.X); fl != nil && fl.Name() == "failedPeers" {
+							return true
+						}
+					}
+				}
+				return false
+			})
+			r.Check(empty, "episode:peer-record-dropped-only-when-empty:"+g.Name(), ci.Pos(), "a peer's alert record is dropped only when it holds no metric name any more", g.Name()+" drops a peer's whole alert record although other metric names may still be counted in it: their expired metrics are alerted again on every check and never forgotten")
+		}
+	})
+	if nDel == 0 {
+		r.Und("episode:peer-record", f.Pos(), "no place drops a peer's alert record: the bookkeeping was not recognised")
 	}
 }
 
